@@ -358,7 +358,14 @@ impl<F: Write + Seek> Allocator<F> {
         debug_assert!(index <= self.fat.len());
         let fat_entries_per_sector =
             self.sectors.sector_len() / size_of::<u32>();
-        let fat_sector_id = self.difat[index / fat_entries_per_sector];
+        let fat_sector_id =
+            match self.difat.get(index / fat_entries_per_sector) {
+                Some(&fat_sector_id) => fat_sector_id,
+                None => malformed!(
+                    "sector {} is not covered by any FAT sector",
+                    index
+                ),
+            };
         let offset_within_sector = 4 * (index % fat_entries_per_sector) as u64;
         let mut sector = self
             .sectors
